@@ -81,8 +81,28 @@ TTotal ==
         /\ Diag("C15", e.max = cfg.T * cfg.B * cfg.S /\ e.total <= e.max, [kind |-> "capacity", max |-> e.max])
   /\ UNCHANGED <<cfg, cand, last, cnt, ver>>
 
+\* Read-your-writes on keys only one thread uses, in buckets that cannot fill (Retained + Faithful of TT.tla):
+\* after the thread's own insert has returned, its later finds of that key must return exactly that value.
+RECURSIVE OwnOk(_, _, _)
+OwnOk(calls, i, mine) ==
+  IF i > Len(calls) THEN 0
+  ELSE LET c == calls[i] k == KId(c.key) IN
+       IF c.op = "ins" THEN OwnOk(calls, i + 1, [x \in DOMAIN mine \cup {k} |-> IF x = k THEN c.val ELSE mine[x]])
+       ELSE IF (k \in DOMAIN mine /\ c.hit /\ c.val = mine[k]) \/ (k \notin DOMAIN mine /\ ~c.hit) THEN OwnOk(calls, i + 1, mine)
+       ELSE i
+TOwn ==
+  /\ IsEvent("Own")
+  /\ LET e == Rec[l] bad == OwnOk(e.calls, 1, <<>>) IN
+       Diag("C15", bad = 0, [kind |-> "a thread's own completed store is not what its later lookup returns (bucket never full)", thread |-> e.th, call |-> bad,
+                             got |-> (IF bad = 0 THEN e.calls[1] ELSE e.calls[bad])])
+  /\ UNCHANGED <<cfg, cand, last, cnt, ver>>
+TOwnTotal ==
+  /\ IsEvent("OwnTotal")
+  /\ Diag("C15", Rec[l].total <= Rec[l].keys /\ Rec[l].total <= Rec[l].max, [kind |-> "more entries than distinct keys stored", total |-> Rec[l].total, keys |-> Rec[l].keys])
+  /\ UNCHANGED <<cfg, cand, last, cnt, ver>>
+
 TraceInit == l = 1 /\ cfg = [T |-> 1, B |-> 1, S |-> 1] /\ cand = <<>> /\ last = <<>> /\ cnt = <<>> /\ ver = <<>>
-TraceNext == TNew \/ TInsert \/ TFind \/ TUsed \/ TTotal
+TraceNext == TOwn \/ TOwnTotal \/ TNew \/ TInsert \/ TFind \/ TUsed \/ TTotal
 Accepted == IF TLCGet("stats").diameter - 1 = Len(Rec) THEN PrintT(<<"ACCEPTED", Len(Rec)>>)
             ELSE PrintT(<<"STUCK", TLCGet("stats").diameter, Len(Rec)>>)
 =============================================================================
